@@ -17,7 +17,7 @@
 
 #define N_H 10
 #define N_Q 8
-#define N_N 16
+#define N_N 17
 #define N_S 14
 enum { K_GRAMMAR, K_MUTANT, K_OPTSIZE };
 struct spec { uint8_t kind, h, q, n, s; uint16_t mpos; uint8_t mval, canon; };
@@ -44,6 +44,7 @@ static void put_qname_variant(struct dp_buf *w, int n, size_t *fwd_at, size_t *c
 	case 13: *cyc_at = w->n; dp_u16(w, 0xc000); break;
 	case 14: dp_ptr(w, 0); break;
 	case 15: dp_u8(w, 3); dp_bytes(w, "www", 3); dp_ptr(w, 12); break;     /* label, then a pointer back to the label */
+	case 16: for (int i = 0; i < 127; i++) { dp_u8(w, 1); dp_u8(w, 'a' + i % 26); } dp_u8(w, 0); break;   /* 127 labels: with a second name the response needs more than 128 compression-table entries */
 	}
 }
 
@@ -318,8 +319,9 @@ static void add_item(long spec, int mode, int plan)
 }
 static int is_canon(const struct spec *s)
 {
+	if (s->n == 16 && s->q == 5) return 0;      /* "sub" + pointer to the 127-label name is longer than 255 octets */
 	return s->kind == K_GRAMMAR && (s->h == 0 || s->h == 1 || s->h == 6 || s->h == 7 || s->h == 8) && (s->q == 0 || s->q == 1 || s->q == 2 || s->q == 4 || s->q == 5)
-	    && (s->n == 0 || s->n == 1 || s->n == 2 || s->n == 3 || s->n == 6) && (s->s == 0 || s->s == 1 || s->s == 2 || s->s == 4 || s->s == 5 || s->s == 6 || s->s == 7 || s->s == 13);
+	    && (s->n == 0 || s->n == 1 || s->n == 2 || s->n == 3 || s->n == 6 || s->n == 16) && (s->s == 0 || s->s == 1 || s->s == 2 || s->s == 4 || s->s == 5 || s->s == 6 || s->s == 7 || s->s == 13);
 }
 static void generate(const char *tier)
 {
@@ -336,6 +338,8 @@ static void generate(const char *tier)
 		if (dev <= (thorough ? 3 : 2)) add_item(id, SM_UDP, dev <= (thorough ? 2 : 1) ? 1 : 0);
 		if (dev <= (thorough ? 2 : 1)) { add_item(id, SM_TCP, 2); add_item(id, SM_TCP, 4); }
 		if (dev <= (thorough ? 1 : 0)) { add_item(id, SM_TCP, 3); add_item(id, SM_TCP, 1); }
+		if (thorough && dev <= 1) add_item(id, SM_TCP, 5);                 /* every pair of TCP cuts */
+		if (thorough && dev == 3) add_item(id, SM_TCP, 2);
 		else if (dev <= 2) add_item(id, SM_TCP, 0);
 	}
 	/* OPT-size family: canonical question, 40 A records in the answer */
@@ -374,6 +378,7 @@ static void item_fn(uint64_t idx)
 	case 2: { size_t cs[][2] = { {1, 0}, {2, 0}, {3, 0}, {sl / 2, 0}, {sl - 1, 0}, {1, 2}, {2, sl - 1}, {1, sl / 2}, {13, 14} };
 		for (size_t i = 0; i < sizeof cs / sizeof cs[0]; i++) { snprintf(g_ctx, sizeof g_ctx, "%s cuts=%zu,%zu len=%zu", d, cs[i][0], cs[i][1], w.n); run_exec(s, it->mode, &w, w.n, cs[i][0], cs[i][1], 0); } break; }
 	case 3: for (size_t cut = 1; cut < sl; cut++) { snprintf(g_ctx, sizeof g_ctx, "%s cut=%zu len=%zu", d, cut, w.n); run_exec(s, it->mode, &w, w.n, cut, 0, 0); } break;
+	case 5: for (size_t step = sl / 300 + 1, c1 = 1; c1 < sl - 1; c1 += step) for (size_t c2 = c1 + 1; c2 < sl; c2 += step) { snprintf(g_ctx, sizeof g_ctx, "%s cuts=%zu,%zu len=%zu", d, c1, c2, w.n); run_exec(s, it->mode, &w, w.n, c1, c2, 0); } MC_COUNT("items_all_tcp_cut_pairs"); break;
 	case 4: snprintf(g_ctx, sizeof g_ctx, "%s pipelined len=%zu", d, w.n); run_exec(s, it->mode, &w, w.n, 0, 0, 1);
 		snprintf(g_ctx, sizeof g_ctx, "%s pipelined cut=%zu len=%zu", d, sl + 1, w.n); run_exec(s, it->mode, &w, w.n, sl + 1, 0, 1);
 		snprintf(g_ctx, sizeof g_ctx, "%s pipelined cut=%zu len=%zu", d, sl - 1, w.n); run_exec(s, it->mode, &w, w.n, sl - 1, sl + 2, 1); break;
@@ -397,7 +402,7 @@ static void init(void)
 int main(int argc, char **argv)
 {
 	generate(dp_argv_param(argc, argv, "tier", "quick"));
-	g_done_cap = (size_t)1 << 24;
+	g_done_cap = (size_t)1 << 26;
 	g_done = mmap(NULL, g_done_cap * sizeof *g_done, PROT_READ | PROT_WRITE, MAP_SHARED | MAP_ANONYMOUS | MAP_NORESERVE, -1, 0);
 	if (g_done == MAP_FAILED) g_done = NULL;
 	struct mc_config cfg = { .property = "C37", .n_items = n_items, .item = item_fn, .init = init };
